@@ -26,6 +26,7 @@ THEOREMS = [
     "C13_refuted",
     "C13_refuted_sent_event",
     "C13_refuted_second_restart",
+    "C13_refuted_requirements",
     "C13_start_picks",
     "C13_restart_at_most_once",
     "C13_source_shape",
@@ -46,7 +47,7 @@ EXPLANATION = (
     "is REFUTED (F12): queue-event commands are discarded by replay, so a stop right after a persisted step_result loses the step's output "
     "(C13_refuted); an event a step sent with ctx.send_event that is still in the mailbox when the step's completion is persisted is lost "
     "the same way (C13_refuted_sent_event); and a log that spans an earlier resume is replayed without that resume's re-queueing, so a "
-    "second restart raises 'Worker n not found' or duplicates work (C13_refuted_second_restart). Tie: for every prefix k of every generated "
+    "second restart raises 'Worker n not found' or duplicates work (C13_refuted_second_restart); a persisted AddWaiter loses its requirements (and the has_requirements mark), so replay resolves the waiter with any logged event of the awaited type (C13_refuted_requirements; all positive theorems carry the guard NoRequirements). Tie: for every prefix k of every generated "
     "run's persisted log the real _on_server_start -> context_from_ticks -> replay_ticks_stream -> workflow.run(ctx=) on the real stack "
     "(memory and sqlite stores) is compared with the model's `restart` op on the same tick lines (decision, exit status, result, resumed "
     "runner: buffer, heap, started workers, state), plus context_from_ticks on truncated stores, plus the handler selection on generated "
@@ -182,6 +183,17 @@ def entered(r: restart.CaseResult, pi: int) -> list:
     return [(s[1], s[2]) for s in r.phase_steps(pi) if s[0] == "enter"]
 
 
+def _without_requirements(t: Any) -> Any:
+    """requirements of an AddWaiter are the one part of a tick the store is known not to keep (C13/requirement_lost_in_persisted_waiter,
+    tied by the `persist` correspondence); everything else must come back as processed"""
+    from workflows.runtime.types import results as RR
+    from workflows.runtime.types import ticks as TT
+
+    if isinstance(t, TT.TickStepResult) and any(isinstance(x, RR.AddWaiter) and x.requirements for x in t.result):
+        return t.model_copy(update={"result": [x.model_copy(update={"requirements": {}}) if isinstance(x, RR.AddWaiter) else x for x in t.result]})
+    return t
+
+
 def check_persist_before_effects(r: restart.CaseResult, out: Outcome, payload: dict) -> None:
     """mechanism: on_tick persists a tick right after it was reduced and before any of its commands run"""
     calls = [c for c in r.trace.calls if c.caller == "_process_tick"]
@@ -199,8 +211,8 @@ def check_persist_before_effects(r: restart.CaseResult, out: Outcome, payload: d
     ok_calls = [c for c in calls if c.error is None]
     if len(r.appends) != len(ok_calls) and not any(p.crashed_at is not None for p in r.phases):
         out.violations.append(Violation("C13/processed_tick_not_persisted", f"{len(ok_calls)} ticks processed, {len(r.appends)} persisted", payload))
-    want = [enc.tick(c.tick) for c in ok_calls][: len(r.ticks)]
-    got = [enc.tick(t) for t in r.ticks]
+    want = [enc.tick(_without_requirements(c.tick)) for c in ok_calls][: len(r.ticks)]
+    got = [enc.tick(_without_requirements(t)) for t in r.ticks]
     if not any(p.crashed_at is not None for p in r.phases) and want != got:
         i = next((j for j in range(min(len(want), len(got))) if want[j] != got[j]), min(len(want), len(got)))
         out.violations.append(Violation("C13/persisted_log_differs_from_processed_ticks", f"first difference at tick {i}", payload))
@@ -229,6 +241,14 @@ def judge_single(base: restart.CaseResult, r: restart.CaseResult, k: int, out: O
             out.violations.append(Violation("C13/finalize_error_differs", f"uninterrupted error {base.error!r}, finalized error {p1.error_at_start!r}", payload))
         return "finalize"
     loss = classify_loss(r.phases[0].volatile)
+    wrong = wrong_deliveries(r, 1)
+    if wrong:
+        vol = r.phases[0].volatile or {}
+        sig = "C13/requirement_lost_in_persisted_waiter" if vol.get("req_waiters") or vol.get("req_waiters_logged") else "C13/wait_requirement_violated_after_restart"
+        out.violations.append(Violation(sig, f"stop after persisted tick {k} of {n}: after the restart wait_for_event returned an event that does not meet its requirements "
+                                             f"(step, got k, required k) {wrong[:3]}; uninterrupted {want[0]} {want[1]}, after restart {got[0]} {got[1]}; "
+                                             f"unresolved waiters with requirements at the stop: {vol.get('req_waiters')}", payload))
+        return "wrong_delivery"
     if got == want:
         # every invocation of the uninterrupted run happened at least once
         have = set(entered(r, 0)) | set(entered(r, 1))
@@ -306,6 +326,55 @@ EDGE_SPECS: list[tuple[str, dict]] = [
 ]
 
 
+# wait_for_event with requirements: the response with the wrong `k` comes first and must not be delivered
+WAIT_REQ_SPEC: dict = {
+    "steps": [{"name": "s00", "accepts": [0], "nw": 1, "retry": None, "script": [["ret", "5"]]},
+              {"name": "s02", "accepts": [5], "nw": 1, "retry": None,
+               "script": [["wait", 3, 1, None, "w01", None, "raise"], ["ret", "stop", "waited"]]}],
+    "externals": [{"op": "send", "ty": 3, "k": 2, "after_work_ticks": 4}, {"op": "send", "ty": 3, "k": 1, "after_work_ticks": 5}],
+    "det_uids": True}
+# the same wait without requirements: restored faithfully
+WAIT_PLAIN_SPEC: dict = {
+    "steps": [{"name": "s00", "accepts": [0], "nw": 1, "retry": None, "script": [["ret", "5"]]},
+              {"name": "s02", "accepts": [5], "nw": 1, "retry": None,
+               "script": [["wait", 3, None, None, "w01", None, "raise"], ["ret", "stop", "waited"]]}],
+    "externals": [{"op": "send", "ty": 3, "k": 2, "after_work_ticks": 4}],
+    "det_uids": True}
+EDGE_SPECS += [("wait_req", WAIT_REQ_SPEC), ("wait_plain", WAIT_PLAIN_SPEC)]
+
+
+def wait_spec(rng: random.Random) -> dict:
+    """a step suspended in wait_for_event (with or without a requirement on `k`); 1..3 responses arrive from outside, one
+    after the other, the last one matching; the run returns the `k` of the response it was given"""
+    reqk = rng.choice([None, 1, 2])
+    nsend = rng.randint(1, 3)
+    ks = [rng.choice([1, 2, 3]) for _ in range(nsend - 1)] + [reqk if reqk is not None else rng.choice([1, 2])]
+    pre = [["gate"]] if rng.random() < 0.5 else []
+    return {"steps": [{"name": "s00", "accepts": [0], "nw": 1, "retry": None, "script": [["ret", "5"]]},
+                      {"name": "s02", "accepts": [5], "nw": rng.randint(1, 2), "retry": None,
+                       "script": pre + [["wait", 3, reqk, None, "w01", None, "raise"], ["ret", "stop", "waited"]]}],
+            "externals": [{"op": "send", "ty": 3, "k": k, "after_work_ticks": 4 + i} for i, k in enumerate(ks)],
+            "det_uids": True}
+
+
+def wrong_deliveries(r: restart.CaseResult, pi: int) -> list:
+    """wait_for_event calls of phase `pi` that returned an event violating the requirement they were made with"""
+    return [(s[1], s[5].get("got_k"), s[5].get("want_k")) for s in r.phase_steps(pi)
+            if s[0] == "waited" and s[5].get("want_k") is not None and s[5].get("got_k") != s[5].get("want_k")]
+
+
+def persist_lines(base: restart.CaseResult, ops: list[str], exp: list[str], owner: list, payload: dict, out: Outcome) -> None:
+    """the store's view of a tick: model `persist` of the live tick object vs the tick read back from the store"""
+    live_ticks = [c.tick for c in base.trace.calls if c.caller == "_process_tick" and c.error is None]
+    for lt, stt in zip(live_ticks, base.ticks):
+        a, b = enc.tick(lt), enc.tick(stt)
+        if a.startswith("TS"):
+            ops.append("persist " + a)
+            exp.append(b)
+            owner.append(payload)
+            out.count("K:persist" + (":changed" if a != b else ""))
+
+
 def all_prefixes(spec: dict, seed: int, kind: str, out: Outcome, ops: list[str], exp: list[str], owner: list, tag: str,
                  only: list[int] | None = None) -> restart.CaseResult | None:
     base = restart.run_crash_case(copy.deepcopy(spec), seed, kind, horizon=HORIZON)
@@ -317,6 +386,7 @@ def all_prefixes(spec: dict, seed: int, kind: str, out: Outcome, ops: list[str],
             out.violations.append(Violation("C13/uninterrupted_run_unfinished", f"the uninterrupted run is still running after {HORIZON}s (virtual)", payload0))
         return None
     check_persist_before_effects(base, out, payload0)
+    persist_lines(base, ops, exp, owner, payload0, out)
     n = len(base.ticks)
     out.count(f"{tag}:runs")
     out.count(f"{tag}:ticks", n)
@@ -807,7 +877,7 @@ def replay_case(case: dict, out: Outcome, ops: list[str], exp: list[str], owner:
 def run(env: Env) -> Outcome:
     out = Outcome()
     out.rule = ("deterministic fan-out/collect workflows (specgen.gen_det_spec; 1..3 workers, retries without delay; a share with retry delays for "
-                "classification) plus hand-picked edge workflows for every exit kind, on the real server stack with memory and sqlite stores; "
+                "classification; a family of steps suspended in wait_for_event with/without requirements answered from outside) plus hand-picked edge workflows for every exit kind, on the real server stack with memory and sqlite stores; "
                 "for every k in 0..n the process is stopped when the k-th tick is persisted and restarted; non-trivial = a stop at 1 <= k <= n that was "
                 "reached; distinct by (spec, schedule seed, store, k). K: model `restart`/`ctx`/`pick` ops on the same tick lines")
     rng = random.Random(env.rng.randrange(1 << 30))
@@ -832,6 +902,9 @@ def run(env: Env) -> Outcome:
         delays = i >= n_mem + n_sql
         spec = det_spec(rng, delays=delays)
         all_prefixes(spec, rng.randrange(1 << 30), kind, out, ops, exp, owner, "det_delay" if delays else "det:" + kind)
+    # ---- waits answered from outside
+    for _ in range(env.budget(2, 24)):
+        all_prefixes(wait_spec(rng), rng.randrange(1 << 30), "memory", out, ops, exp, owner, "wait")
     # ---- second restarts (logs that span a resume)
     for _ in range(env.budget(2, 40)):
         second_restarts(det_spec(rng), rng.randrange(1 << 30), "memory", rng, 2, out, ops, exp, owner)
